@@ -153,6 +153,13 @@ class Streams(Stage):
     def gen(self, d, tier):
         dialect = d.choice(['new', 'old'])
         specs = histgen.history(d, nconn=d.int(1, 2), nmsg=d.int(1, 12), profile=PROFILE)
+        if d.chance(0.3):
+            # a request with a new id the protocol gives no interface for, other than wl_registry.bind: libwayland prints interface
+            # name, version and `new id [unknown]#N`; nothing can be created from it, the line is still a message
+            k = d.int(1, len(specs))
+            at = specs[k - 1]
+            specs.insert(k, dict(conn=at['conn'], t_us=at['t_us'], sent=True, iface='wl_display', id=1, name=d.choice(['make_any', 'create_any']),
+                                 args=[['str', 'zfoo_thing_v1'], ['uint', 1], ['new', None, 700 + d.int(0, 9)]]))
         # current libwayland prints the event queue's name; with the project's conn_id patches both tags appear
         queue = d.choice([None, None, 'Default Queue', 'Display Queue', 'q']) if dialect == 'new' else None
         lines = []
